@@ -3,8 +3,10 @@
 //! property (C01..C19).  See /verif/DESIGN.md.
 
 pub mod calls;
+pub mod campaign;
 pub mod crc;
 pub mod engine;
+pub mod fuzz;
 pub mod gen;
 pub mod known;
 pub mod props;
